@@ -1,7 +1,7 @@
 (* L1 comparator for C20: the model of Model/Memo.v (generated kernels) is run
    on the operations of an observed trace and must predict every observation. *)
 From Coq Require Import ZArith List Bool String Ascii.
-From DM Require Import Run.SC20 Model.Memo Model.MemoKey Model.MemoLazy.
+From DM Require Import Run.SC20 Model.Memo Model.MemoExn Model.MemoKey Model.MemoLazy.
 Import ListNotations.
 Open Scope Z_scope.
 
@@ -38,6 +38,33 @@ Fixpoint trace_eqb (a b : list (tev nat Z Z Z)) : bool :=
 
 Definition model_agrees (sizes : list (Z * Z)) (tr : list (tev nat Z Z Z)) : bool :=
   trace_eqb (model_trace sizes (ops_of tr)) tr.
+
+(* ---- histories in which calls may raise: the model of Model/MemoExn.v (by value) must predict every observation,
+   also that a call raised and what was observed then ---- *)
+Definition ops_of_x (tr : list (xtev nat Z Z Z)) : list (op nat Z Z) :=
+  map (fun t => match t with
+                | XT (TNew o) => ONew o | XT (TClear i) => OClear i | XT (TCall i a _) => OCall i a
+                | XRaise i a _ => OCall i a
+                end) tr.
+Definition model_trace_x (sizes : list (Z * Z)) (ops : list (op nat Z Z)) : list (xtev nat Z Z Z) :=
+  snd (wrun_x nat Z Z Z cf cexn ckey cthunks (csize sizes) Z.eqb Z.eqb w0 ops).
+Definition xevent_eqb (a b : xevent Z) : bool :=
+  Bool.eqb (x_ran a) (x_ran b) && Nat.eqb (x_forced a) (x_forced b) && keys_eqb Z Z.eqb (x_keys a) (x_keys b)
+  && Z.eqb (x_csize a) (x_csize b) && same_keys Z Z.eqb (x_files a) (x_files b).
+Definition xtev_eqb (a b : xtev nat Z Z Z) : bool :=
+  match a, b with
+  | XT t, XT t' => tev_eqb t t'
+  | XRaise i x e, XRaise j y e' => Nat.eqb i j && Nat.eqb x y && xevent_eqb e e'
+  | _, _ => false
+  end.
+Fixpoint trace_x_eqb (a b : list (xtev nat Z Z Z)) : bool :=
+  match a, b with
+  | [], [] => true
+  | x :: a', y :: b' => xtev_eqb x y && trace_x_eqb a' b'
+  | _, _ => false
+  end.
+Definition model_agrees_x (sizes : list (Z * Z)) (tr : list (xtev nat Z Z Z)) : bool :=
+  trace_x_eqb (model_trace_x sizes (ops_of_x tr)) tr.
 
 (* ---- the key derivation: the text the model hashes against the text the implementation hashes ----
    float.__repr__ is not modelled: the harness supplies it for the floats of the case (tab);
